@@ -23,6 +23,7 @@ from fractions import Fraction
 
 VERIF = os.path.dirname(os.path.dirname(os.path.abspath(__file__)))
 LEAN = os.path.join(VERIF, "lean")
+REPO = os.environ.get("VERIF_REPO", "/repo")  # source tree read by translators
 DRIVER = os.path.join(LEAN, ".lake", "build", "bin", "driver")
 ALLOWED_AXIOMS = {"propext", "Classical.choice", "Quot.sound"}
 FORBIDDEN = re.compile(
